@@ -371,19 +371,25 @@ func runSUnit(w *runner.W, cs sCase, u sUnit, tail string) {
 	named := strings.Contains(cs.Key, ".")
 	numbered := strings.Contains(cs.Key, "#")
 	for i, l := range u.lines {
-		c := cs
-		c.Line = short(l.line)
 		first, second := res[i], res[len(lines)-1-i]
-		where := fmt.Sprintf("%s pattern %s (%d groups) line %s (n=%d) key %s", u.ms.Kind, short(u.ms.Pattern), len(l.groups)-1, short(l.line), l.n, cs.Key)
+		// built only when something is reported
+		caseOf := func() sCase {
+			c := cs
+			c.Line = short(l.line)
+			return c
+		}
+		where := func() string {
+			return fmt.Sprintf("%s pattern %s (%d groups) line %s (n=%d) key %s", u.ms.Kind, short(u.ms.Pattern), len(l.groups)-1, short(l.line), l.n, cs.Key)
+		}
 		if first.Indices == nil {
-			w.Violation("C16/no-match/"+cs.Family+tail, where+": no match or an empty key", c)
+			w.Violation("C16/no-match/"+cs.Family+tail, where()+": no match or an empty key", caseOf())
 			w.Eval(false)
 			continue
 		}
 		text := first.Extracted
 		// "The same match always yields the same text"
 		if second.Extracted != text {
-			w.Violation("C16/same-match-different-text/"+cs.Family+tail, fmt.Sprintf("%s: the same extractor gave %s the first time and %s when the line came again after %d other lines", where, short(text), short(second.Extracted), 2*(len(u.lines)-1-i)), c)
+			w.Violation("C16/same-match-different-text/"+cs.Family+tail, fmt.Sprintf("%s: the same extractor gave %s the first time and %s when the line came again after %d other lines", where(), short(text), short(second.Extracted), 2*(len(u.lines)-1-i)), caseOf())
 		}
 		exp := &expectation{named: named, numbered: numbered, names: map[string]string{}, groups: l.groups}
 		for name, idx := range u.names {
@@ -391,7 +397,7 @@ func runSUnit(w *runner.W, cs sCase, u sUnit, tail string) {
 		}
 		fs := checkText(text, exp)
 		for _, f := range fs {
-			w.Violation("C16/"+f.sig+"/"+cs.Family+tail, fmt.Sprintf("%s: text %s (%d bytes): %s", where, short(text), len(text), short2(f.detail)), c)
+			w.Violation("C16/"+f.sig+"/"+cs.Family+tail, fmt.Sprintf("%s: text %s (%d bytes): %s", where(), short(text), len(text), short2(f.detail)), caseOf())
 		}
 		w.Eval(text != "{}")
 		w.Outcome("size", cs.Family, cs.Shape, cs.Config, cs.Key, outcomeClassShort(text, len(fs) == 0), sizeClass(l.n))
